@@ -28,6 +28,7 @@ DEFAULT_OPTS = {
     'units_raw': 0.15,
     'time_at': [],              # list of pattern strings allowed
     'reassign_after_get': False,
+    'builtins': 0.5,            # probability that a script calls built-ins
 }
 
 
@@ -42,6 +43,10 @@ class ScriptGen:
         self.vars = []          # numeric variables in scope (globals)
         self.routines = []      # (name, nparams)
         self.raw = False
+        # a script either calls built-in functions or uses their names for
+        # its own variables (both are legal, not in one script)
+        self.use_builtins = rng.random() < self.o['builtins']
+        self.shadow_builtins = (not self.use_builtins) and rng.random() < 0.2
         self.lights = [b['label'] for b in population]
         self.groups = sorted({b.get('group', 'Group') for b in population})
         self.locs = sorted({b.get('location', 'Home') for b in population})
@@ -100,6 +105,13 @@ class ScriptGen:
         if allow_var and self.vars and r.random() < 0.25:
             v = r.choice(self.vars)
             return '{{{} % {} + {}}}'.format(v, max(hi - lo, 1), lo)
+        if self.use_builtins and r.random() < 0.2:
+            n = self._num(lo, hi)
+            return r.choice([
+                '[floor {}.7]'.format(n), '[round {}.2]'.format(n),
+                '[trunc {}.9]'.format(n), '[ceil {}.0]'.format(n),
+                '[cycle {}]'.format(n) if hi <= 359 else '[floor {}]'.format(n),
+            ])
         return str(self._num(lo, hi))
 
     def _regs(self, kind):
@@ -230,12 +242,19 @@ class ScriptGen:
             else:
                 name = 'scratch'
         else:
-            name = r.choice(['va', 'vb', 'vc', 'counter', 'total'])
+            pool = ['va', 'vb', 'vc', 'counter', 'total']
+            if self.shadow_builtins:
+                pool += ['floor', 'round', 'sqrt']
+            name = r.choice(pool)
         if name in self.vars and r.random() < 0.5:
             expr = '{{{} + {}}}'.format(name, self._num(1, 9))
         elif self.vars and r.random() < 0.4:
             expr = '{{{} * {} - {}}}'.format(r.choice(self.vars),
                                              self._num(1, 5), self._num(0, 20))
+        elif self.use_builtins and r.random() < 0.3:
+            expr = r.choice(['[sqrt {}]'.format(self._num(0, 99)),
+                             '[floor {}.5]'.format(self._num(0, 50)),
+                             '[round {}.5]'.format(self._num(0, 50))])
         else:
             expr = str(self._num(0, 50))
         if name not in self.vars and not nested:
